@@ -57,6 +57,19 @@ type Engine struct {
 	axioms      []*Term
 	covered     []*Term // pcs of reached returns (vacuity)
 	returns     int
+	frame       *frameInfo
+}
+
+type frameObj struct {
+	key string
+	ref *Term
+}
+
+// frameInfo is the resolved modifies clause of the function under verification.
+type frameInfo struct {
+	all  bool
+	keys map[string]bool
+	objs []frameObj
 }
 
 type Frame struct {
@@ -90,6 +103,7 @@ type mapIter struct {
 }
 
 type Loop struct {
+	autoFrame []string
 	Header  *ssa.BasicBlock
 	Blocks  map[*ssa.BasicBlock]bool
 	Ordinal int
